@@ -129,6 +129,9 @@ CASES = {
     "sum_axis0": (lambda n, a: a.sum(axis=0), [POS], False),
     "sum_axis_tuple": (lambda n, a: a.sum(axis=(0, 1)), [POS], False),
     "cumsum": (lambda n, a: n.cumsum(a, axis=1), [POS], False),
+    "nan_to_num": (lambda n, a: n.nan_to_num(a), [A2], False),
+    "nan_to_num_inplace": (lambda n, a: _n2n(n, a), [A2], False),
+    "gradient": (lambda n, a: n.gradient(a), [np.array([2000.0, 2001.0, 2003.0, 2006.5, 2010.0])], False),
     "diff": (lambda n, a: n.diff(a, axis=0, prepend=0), [POS], False),
     "lt": (lambda n, a, b: (a < b).astype(float), [A2, B2], False),
     "le": (lambda n, a, b: (a <= b).astype(float), [A2, B2], False),
@@ -159,6 +162,12 @@ CASES = {
     "array_copy": (lambda n, a: n.array(a, dtype=float), [POS], True),
     "asarray_float": (lambda n, a: n.asarray(a, dtype=float), [POS], False),
 }
+
+
+def _n2n(n, a):
+    a = a.copy()
+    n.nan_to_num(a, copy=False, nan=7.5)
+    return a
 
 
 def _masked(n, a):
